@@ -374,6 +374,16 @@ def ip_contents():
         out += [tag + '::', tag + ':::', tag + '1:::2', tag + '::1::', tag + '1::2::3', tag + ':1:2:3:4:5:6:7', tag + '1:2:3:4:5:6:7:', tag + '1:2:3:4:5:6:7::',
                 tag + '::ffff:1.2.3.4', tag + '::ffff:0.2.3.4', tag + '::1.2.3.256', tag + '1:2:3:4:5:6:1.2.3.4', tag + '1:2:3:4:5:1.2.3.4', tag + '1:2:3:4:5:6:7:1.2.3.4',
                 tag + '1.2.3.4', tag + '::1.2.3', tag + '::1.2.3.4.5', tag + '1:2:3:4:5:6:7:8:9', tag + '::12345', tag + '::1 ', tag + ' ::1']
+    # group widths 1-4 in every shape, with and without a dotted-quad tail of every octet width (text lengths up to 45)
+    for w in (1, 2, 3, 4):
+        g = 'abcd'[:w] if w > 1 else '7'
+        for ow in (1, 2, 3):
+            q = '.'.join(['1' * ow] * 4)
+            out += ['IPv6:' + ':'.join([g] * 8), ':'.join([g] * 8), 'IPv6:' + ':'.join([g] * 6) + ':' + q, ':'.join([g] * 6) + ':' + q,
+                    'IPv6:' + ':'.join([g] * 3) + '::' + ':'.join([g] * 3), 'IPv6:' + ':'.join([g] * 2) + '::' + ':'.join([g] * 2) + ':' + q,
+                    'IPv6:::' + ':'.join([g] * 4) + ':' + q, 'IPv6:' + ':'.join([g] * 4) + '::' + q, 'IPv6:' + ':'.join([g] * 5) + ':' + q, 'IPv6:' + ':'.join([g] * 7) + ':' + q]
+    out += ['IPv6:ffff:ffff:ffff:ffff:ffff:ffff:255.255.255.255', 'IPv6:1111:2222:3333:4444:5555:6666:10.10.10.1', 'IPv6:1111:2222:3333:4444:5555:6666:10.10.1.1',
+            'IPv6:ffff:ffff:ffff:ffff:ffff:ffff:ffff:ffff', 'IPv6:0000:0000:0000:0000:0000:0000:0000:0000', 'IPv6:00000::1', 'IPv6:ffff:ffff:ffff:ffff:ffff:ffff:255.255.255.2555']
     return [c.encode() for c in out]
 
 # ------------------------------------------------------------------ IDN labels
@@ -415,4 +425,13 @@ def idn_domains(rnd, n):
     # malformed UTF-8 and over-long labels
     out += [b'\xc3.com', b'a\xff.com', b'\xed\xa0\x80.com', b'\xf4\x90\x80\x80.com', b'\xc0\xaf.com', ('я' * 70 + '.рф').encode(), ('я' * 57 + '.рф').encode(),
             ('日' * 60 + '.com').encode(), b'xn--zz.com', b'xn--a.com', b'xn---abc.com', b'ab--c.com', b'-a.com', b'a-.com', b'xn--80akhbyknj4f.xn--p1ai']
+    return out
+
+
+# ------------------------------------------------------------------ NUL inside the range (direct calls with end beyond a terminator)
+def with_nul(strings, limit=4000):
+    out = []
+    for s in strings[:limit]:
+        for i in range(len(s) + 1):
+            out.append(s[:i] + b'\x00' + s[i:])
     return out
